@@ -36,6 +36,27 @@ pub struct SourcedConfig {
 /// A value of 10 allows depths 0..=10 inclusive, meaning a chain of up to 11 config files.
 pub const MAX_EXTENDS_DEPTH: usize = 10;
 
+/// Keys that the typed configuration accepts under a second name (`#[serde(alias = ...)]` in
+/// `model.rs`), as `(table, alias, canonical key)`. The merge works on raw TOML tables, where
+/// the two spellings would be different keys: a base using one and a child using the other
+/// would end up with both in the merged table and fail to deserialize (duplicate field).
+const KEY_ALIASES: &[(&str, &str, &str)] = &[("structure", "deny_file_patterns", "deny_files")];
+
+/// Rename aliased keys of one chain member to their canonical names before it is merged.
+///
+/// A member that spells the same setting both ways is left alone: it is rejected by the
+/// typed parse, exactly as it is when loaded on its own.
+fn normalize_alias_keys(value: &mut toml::Value) {
+    for (table, alias, canonical) in KEY_ALIASES {
+        if let Some(entries) = value.get_mut(*table).and_then(toml::Value::as_table_mut)
+            && !entries.contains_key(*canonical)
+            && let Some(aliased) = entries.remove(*alias)
+        {
+            entries.insert((*canonical).to_string(), aliased);
+        }
+    }
+}
+
 /// Resolves extends chains for config inheritance.
 ///
 /// This struct encapsulates all the logic for resolving `extends` fields in configs,
@@ -206,12 +227,14 @@ impl<'a, F: FileSystem> ExtendsResolver<'a, F> {
     #[allow(clippy::option_as_ref_deref, clippy::useless_let_if_seq)]
     fn process_config_value(
         &self,
-        config_value: toml::Value,
+        mut config_value: toml::Value,
         base_path: Option<&Path>,
         visited: &mut IndexSet<String>,
         mut sources: Option<&mut Vec<SourcedConfig>>,
         depth: usize,
     ) -> Result<(toml::Value, Option<String>)> {
+        normalize_alias_keys(&mut config_value);
+
         let extends_value = config_value
             .get("extends")
             .and_then(toml::Value::as_str)
